@@ -123,12 +123,17 @@ class ReadTagFragmentedResponsePacket(ReadTagResponsePacket):
 
     def _parse_reply(self):
         super()._parse_reply(dont_parse=True)
-        if self.data[:2] == STRUCTURE_READ_REPLY:
-            self.value_bytes = self.data[4:]
-            self._data_type = self.data[:4]
-        else:
-            self.value_bytes = self.data[2:]
-            self._data_type = self.data[:2]
+        try:
+            if self.data[:2] == STRUCTURE_READ_REPLY:
+                self.value_bytes = self.data[4:]
+                self._data_type = self.data[:4]
+            else:
+                self.value_bytes = self.data[2:]
+                self._data_type = self.data[:2]
+        except Exception as err:
+            self.__log.exception("Failed parsing reply data")
+            self.value_bytes = b""
+            self._error = self._error or f"Failed to parse reply - {err}"
 
     def parse_value(self):
         try:
